@@ -224,6 +224,7 @@ int main(int argc, char **argv) {
     install_crash_handler();
     uint64_t seed = args.i("seed", 1);
     int lambda = args.i("lambda", 0);
+    if (args.i("prelude", 0)) { rng.reseed(seed * 4241 + 3); seed_library(seed * 4243 + 5); history_other_parameter_set(rng); }
     rng.reseed(seed * 1000003ull + lambda);
     seed_library(seed * 19 + lambda);
     World w; TFheGateBootstrappingParameterSet *dp = nullptr; PSet *ps = nullptr;
